@@ -10,6 +10,12 @@ import (
 // snappyCompressor is a shared compressor instance for Snappy compression
 var snappyCompressor = compressor.New(compressor.Snappy)
 
+// MaxEntriesPerBlock is the largest entry count the 2-byte EntryCount field of
+// a block header can describe. A buffer that reaches it must be flushed even
+// if the configured block size has not been reached yet, otherwise the count
+// wraps around and the reader silently drops the surplus entries.
+const MaxEntriesPerBlock = 65535
+
 // WriteBuffer collects entries before flushing them as a compressed block.
 // It provides efficient batching of writes to minimize I/O operations.
 type WriteBuffer struct {
@@ -38,14 +44,14 @@ func (wb *WriteBuffer) Add(entry Entry) bool {
 	wb.entries = append(wb.entries, entry)
 	wb.currentSize += entry.Size()
 
-	return wb.currentSize >= wb.maxSize
+	return wb.currentSize >= wb.maxSize || len(wb.entries) >= MaxEntriesPerBlock
 }
 
 // ShouldFlush returns true if the buffer has reached its maximum size
 func (wb *WriteBuffer) ShouldFlush() bool {
 	wb.mu.Lock()
 	defer wb.mu.Unlock()
-	return wb.currentSize >= wb.maxSize
+	return wb.currentSize >= wb.maxSize || len(wb.entries) >= MaxEntriesPerBlock
 }
 
 // IsEmpty returns true if the buffer has no entries
